@@ -21,6 +21,7 @@ import time
 
 from harness import common as C
 from harness import warm as W
+from harness import decoy as D
 
 
 def _pool_map(fn, items, procs):
@@ -34,10 +35,15 @@ def _pool_map(fn, items, procs):
 class _ImplCall:
     """picklable wrapper: `mod.impl(line)`, inside `warm.warm_constructors()` for a line carrying the `@w` marker"""
 
-    def __init__(self, impl):
+    def __init__(self, impl, decoys=None):
         self.impl = impl
+        self.decoys = decoys
 
     def __call__(self, line):
+        if line.endswith(D.MARK):
+            # decoy twin (harness/decoy.py): same identifiers, other content, played first in this worker process
+            line = D.strip(line)
+            D.play(self.impl, self.decoys, W.strip(line))
         return W.call(self.impl, line)
 
 
@@ -53,6 +59,19 @@ def with_warm_twins(mod, run, lines):
         if share and run.rng.random() < share and ln.split(" ", 1)[0] not in skip_ops and not ln.endswith(W.MARK):
             run.count("warm-twin")
             yield ln + W.MARK
+
+
+def with_decoy_twins(mod, run, lines):
+    """`DECOY_TWINS = share` in a property module: for that share of the lines the twin `<line> @d` is evaluated too -
+    the same operation after a decoy (same identifiers, other bases / another hierarchy) was played in the same process."""
+    share = getattr(mod, "DECOY_TWINS", 0)
+    if isinstance(share, dict):
+        share = share.get(run.tier, 0)
+    for ln in lines:
+        yield ln
+        if share and not ln.endswith((W.MARK, D.MARK)) and run.rng.random() < share:
+            run.count("decoy-twin")
+            yield ln + D.MARK
 
 
 def corpus_lines(prop_id):
@@ -75,10 +94,10 @@ def evaluate(mod, run, lines, want_model=True, via=None):
     and the specification are functions of the mathematical operands only.
     `via` = id of the property whose operations these are, when they are borrowed by another property's check."""
     procs = int(os.environ.get("VERIF_PROCS", "16"))
-    impl_out = _pool_map(_ImplCall(mod.impl), lines, procs)
+    impl_out = _pool_map(_ImplCall(mod.impl, getattr(mod, "decoys", None)), lines, procs)
     impl_lines = lines
     ll = getattr(mod, "lean_line", None)
-    lines = [W.strip(l) for l in lines]          # `@w` twins (harness/warm.py): the Lean side is history-free
+    lines = [W.strip(D.strip(l)) for l in lines]   # `@w` / `@d` twins (harness/warm.py, decoy.py): the Lean side is history-free
     if ll is not None:
         lines = [ll(l) for l in lines]
     model_ops = getattr(mod, "MODEL_OPS", None)
@@ -101,9 +120,9 @@ def evaluate(mod, run, lines, want_model=True, via=None):
     err_class = getattr(mod, "ERR_CLASS", False)
     for l, io, mo, so in zip(impl_lines, impl_out, model_out, spec_out):
         run.evaluations += 1
-        key = mod.nontrivial(W.strip(l), io)
+        key = mod.nontrivial(W.strip(D.strip(l)), io)
         if key is not None:
-            run.nontrivial.add((key, "@w") if l.endswith(W.MARK) else key)
+            run.nontrivial.add((key, "@w") if l.endswith(W.MARK) else (key, "@d") if l.endswith(D.MARK) else key)
         run.count("impl:" + ("ok" if io.startswith("ok") else io.split(" ", 2)[0] + " " + (io.split(" ", 2) + ["", ""])[1]))
         run.count("spec:" + so.split(" ", 1)[0])
         if len(run.samples) < 8 and key is not None and run.rng.random() < 0.01 + 8.0 / max(8, len(lines)):
@@ -192,7 +211,7 @@ def main(argv):
             if rc_lc not in (0, None):
                 broken.append({"what": "leanchecker", "detail": (out_lc or "")[-800:]})
     # 4 correspondence + spec ---------------------------------------------------------------
-    lines = corpus_lines(mod.ID) + list(with_warm_twins(mod, run, mod.cases(run)))
+    lines = corpus_lines(mod.ID) + list(with_decoy_twins(mod, run, with_warm_twins(mod, run, mod.cases(run))))
     model_usable = build_ok or _driver_builds(mod)
     evaluate(mod, run, lines, want_model=model_usable)
     if hasattr(mod, "extra_checks"):
@@ -222,7 +241,7 @@ def main(argv):
             findings = findings + [dict(f, id=(f["id"] + "@" + o.ID) if f["id"] in own_ids else f["id"])]
     new_failures = []
     for f in run.failures:
-        k = C.match_finding(findings, W.strip(f["line"]), f["impl"], f)
+        k = C.match_finding(findings, W.strip(D.strip(f["line"])), f["impl"], f)
         if k:
             run.known_hit[k["id"]] = run.known_hit.get(k["id"], 0) + 1
         else:
@@ -299,7 +318,7 @@ def _borrow(mod, run, tier, seed, skip_build):
         runb = C.Run(mod.ID, tier, seed)
         ops = set(b["ops"])
         pick = b.get("pick")
-        blines = [l for l in with_warm_twins(other, runb, other.cases(runb))
+        blines = [l for l in with_decoy_twins(other, runb, with_warm_twins(other, runb, other.cases(runb)))
                   if l.split(" ", 1)[0] in ops and (pick is None or pick(l))]
         if b.get("max") and len(blines) > b["max"]:
             blines = runb.rng.sample(blines, b["max"])
